@@ -95,7 +95,9 @@ theorem post_state_layout (c : Cursor) (first : Bool) :
     Post (State.new c first) (fun r =>
       r.2 = c.drop (announcedLen (if first then 4 else 8) c)
         ∧ announcedLen (if first then 4 else 8) c ≤ c.length
-        ∧ versionOf ((c.drop 4).take 1) = some r.1.header.version) := by
+        ∧ versionOf ((c.drop 4).take 1) = some r.1.header.version
+        ∧ r.1.header.transition_count = hdrCount c 3 ∧ r.1.header.type_count = hdrCount c 4
+        ∧ r.1.header.leap_count = hdrCount c 2) := by
   have k : TYPE_RECORD = 6 := rfl
   unfold State.new
   refine post_bind (post_header_layout _) ?_
@@ -140,7 +142,7 @@ theorem post_state_layout (c : Cursor) (first : Bool) :
     unfold announcedLen
     rw [← q0, ← q1, ← q2, ← q3, ← q4, ← q5, en1, en3, en5]
   have hl0 : c0.length + 44 = c.length := by rw [e0]; simp only [List.length_drop]; omega
-  refine post_ok ⟨?_, ?_, hver⟩
+  refine post_ok ⟨?_, ?_, hver, q3, q4, q2⟩
   · dsimp only
     rw [e7, e6, e5, e4, e3, e2, e1, e0, hA]
     simp only [List.drop_drop]
@@ -160,7 +162,7 @@ theorem accepted_layout' (bytes : List Nat) (z : Zone) (h : parse bytes = .ok z)
   unfold parseBlocks at hb
   obtain ⟨⟨st1, c1⟩, hs1, hb⟩ := bind_eq_ok hb
   have p1 := post_spec (post_state_layout bytes true) hs1
-  obtain ⟨e1, l1, hv1⟩ := p1
+  obtain ⟨e1, l1, hv1, -, -, -⟩ := p1
   simp only [if_true] at e1 l1
   dsimp only at e1 l1 hv1 hb
   cases hver : st1.header.version with
@@ -182,7 +184,7 @@ theorem accepted_layout' (bytes : List Nat) (z : Zone) (h : parse bytes = .ok z)
     obtain ⟨⟨st2, c2⟩, hs2, hb⟩ := bind_eq_ok hb
     simp only [P.ok.injEq, Prod.mk.injEq] at hb
     obtain ⟨rfl, rfl⟩ := hb
-    obtain ⟨e2, l2, -⟩ := post_spec (post_state_layout c1 false) hs2
+    obtain ⟨e2, l2, -, -, -, -⟩ := post_spec (post_state_layout c1 false) hs2
     simp only [Bool.false_eq_true, if_false] at e2 l2
     refine ⟨fun hv => ?_, fun _ => ?_⟩
     · rw [hv1] at hv; cases hv
@@ -204,7 +206,7 @@ theorem accepted_layout' (bytes : List Nat) (z : Zone) (h : parse bytes = .ok z)
     obtain ⟨⟨st2, c2⟩, hs2, hb⟩ := bind_eq_ok hb
     simp only [P.ok.injEq, Prod.mk.injEq] at hb
     obtain ⟨rfl, rfl⟩ := hb
-    obtain ⟨e2, l2, -⟩ := post_spec (post_state_layout c1 false) hs2
+    obtain ⟨e2, l2, -, -, -, -⟩ := post_spec (post_state_layout c1 false) hs2
     simp only [Bool.false_eq_true, if_false] at e2 l2
     refine ⟨fun hv => ?_, fun _ => ?_⟩
     · rw [hv1] at hv; cases hv
@@ -220,5 +222,67 @@ theorem accepted_layout' (bytes : List Nat) (z : Zone) (h : parse bytes = .ok z)
       have h2 := congrArg List.length e2
       simp only [List.length_drop] at h1 h2
       omega
+
+/-! ### allocation requests in bytes -/
+theorem announced_ge (ts : Nat) (c : List Nat) (hts : 4 ≤ ts) :
+    5 * (hdrCount c 3 + hdrCount c 4 + hdrCount c 2) ≤ announcedLen ts c := by
+  unfold announcedLen
+  have h1 : hdrCount c 3 * 4 ≤ hdrCount c 3 * ts := Nat.mul_le_mul_left _ hts
+  have h2 : hdrCount c 2 * 8 ≤ hdrCount c 2 * (ts + 4) := Nat.mul_le_mul_left _ (by omega)
+  omega
+
+/-- the three `Vec::with_capacity` requests of `parse`, in BYTES (16-byte elements), together stay
+below 3.2 times the input length -/
+theorem capacityBytes_le (bytes : List Nat) : 5 * (capacityBytes bytes).sum ≤ 16 * bytes.length := by
+  unfold capacityBytes capacities
+  cases hb : parseBlocks bytes with
+  | err => simp
+  | panic => simp
+  | ok x =>
+    obtain ⟨st, fo⟩ := x
+    have key : 5 * (st.header.transition_count + st.header.type_count + st.header.leap_count)
+        ≤ bytes.length := by
+      unfold parseBlocks at hb
+      obtain ⟨⟨st1, c1⟩, hs1, hb⟩ := bind_eq_ok hb
+      obtain ⟨e1, l1, -, q3, q4, q2⟩ := post_spec (post_state_layout bytes true) hs1
+      simp only [if_true] at e1 l1
+      dsimp only at e1 l1 q3 q4 q2 hb
+      have g1 := announced_ge 4 bytes (by omega)
+      cases hver : st1.header.version with
+      | V1 =>
+        rw [hver] at hb
+        dsimp only at hb
+        split at hb
+        · simp only [P.ok.injEq, Prod.mk.injEq] at hb
+          obtain ⟨rfl, -⟩ := hb
+          rw [q3, q4, q2]; omega
+        · cases hb
+      | V2 =>
+        rw [hver] at hb
+        dsimp only at hb
+        obtain ⟨⟨st2, c2⟩, hs2, hb⟩ := bind_eq_ok hb
+        simp only [P.ok.injEq, Prod.mk.injEq] at hb
+        obtain ⟨rfl, -⟩ := hb
+        obtain ⟨-, l2, -, r3, r4, r2⟩ := post_spec (post_state_layout c1 false) hs2
+        simp only [Bool.false_eq_true, if_false] at l2
+        dsimp only at l2 r3 r4 r2
+        have g2 := announced_ge 8 c1 (by omega)
+        have hc1 : c1.length ≤ bytes.length := by rw [e1]; simp only [List.length_drop]; omega
+        rw [r3, r4, r2]; omega
+      | V3 =>
+        rw [hver] at hb
+        dsimp only at hb
+        obtain ⟨⟨st2, c2⟩, hs2, hb⟩ := bind_eq_ok hb
+        simp only [P.ok.injEq, Prod.mk.injEq] at hb
+        obtain ⟨rfl, -⟩ := hb
+        obtain ⟨-, l2, -, r3, r4, r2⟩ := post_spec (post_state_layout c1 false) hs2
+        simp only [Bool.false_eq_true, if_false] at l2
+        dsimp only at l2 r3 r4 r2
+        have g2 := announced_ge 8 c1 (by omega)
+        have hc1 : c1.length ≤ bytes.length := by rw [e1]; simp only [List.length_drop]; omega
+        rw [r3, r4, r2]; omega
+    have kb : ELEM_BYTES = 16 := rfl
+    simp only [List.map_cons, List.map_nil, List.sum_cons, List.sum_nil, kb]
+    omega
 
 end Chrono.Proofs.TzValid
